@@ -128,7 +128,7 @@ CHECKS = {
         text="Theorems: acceptance of an encryption statement implies that its hashed Schnorr commitments are computed with the response of the referenced signed claim and, when the statement requests scalar decryption, that the proof carries the decryptable part; completeness of the sub-protocol; group decryption c2 - dk*c1 = gm*m for the ElGamal pair the transcripts open to; view/extraction lemmas in C07/C17. The reassembly of the scalar from the byte decomposition is modelled and proved: every byte string that passes the verifier's field sum check reassembles to the signed claim (and, refuted for the pinned tree, the decomposition of m + r passed the check and decrypted to nothing for every claim below 2^256 - r; repaired); the per-byte Schnorr proofs and the 8-bit bulletproofs are not modelled in Coq. "
              "Correspondence: external prover (honest, substitute plaintext with shared / independent nonce, omitted proof, altered response, omitted decryptable part) against model and implementation; decrypt / decrypt_scalar / decrypt_and_verify of Presentation::create output for every claim type and value class with standard and hashed generators; a hand-written holder for the byte decomposition (honest calibration; bytes of another value with related and with unrelated byte randomness; the integer m + r): whatever is accepted must decrypt to the signed scalar.",
         design="§7 C10",
-        note="bulletproofs soundness, AES-GCM idealised. Known finding: decrypt_scalar works only for the standard generator. Deviations inside the byte decomposition are exercised by a hand-written holder for the encryption statement; the encrypt-and-decrypt proof has no external deviating prover (honest holders and mutations of finished proofs only: a holder deviating while proving is a blind spot, DESIGN §17 C10-f).",
+        note="bulletproofs soundness, AES-GCM idealised. Known finding: decrypt_scalar works only for the standard generator. Deviations inside the byte decomposition are exercised by a hand-written holder for the encryption statement; and by a second hand-written holder for the encrypt-and-decrypt proof (other text in the symmetric part, scaled generator carried in the proof); neither is modelled in Coq.",
         technique="Coq theorems about the verifier model (linkage, required decryptable part, group decryption) + differential correspondence + decryption checks on honest presentations"),
     "C16": dict(
         text="Theorems: the issuer's recomputation equals the holder's hashed commitment for every request that lists the hidden claims in index order and covers exactly the claims the issuer does not supply (any schema size, both suites); unblinded blind signatures satisfy the ordinary verification equation over the union of issuer-known and hidden claims; the response vector has exactly one entry per unsupplied claim (+1 for PS), and two accepting transcripts open the commitment on the unsupplied claims' generators only; the label policy (declared blindable, disjoint from the issuer's, no repeats, counts add up); PS requests are perfectly hiding (bijection on the blinding factor); BBS requests are not (refutation theorem, known finding). "
